@@ -656,6 +656,47 @@ func rulePublish(c *Ctx) {
 		}
 	}
 	c.census("C13-SKIP", "returns of background analyses that publish", nRet, 2)
+	// ... and the publication itself, once the version guard has let it through, is not skipped depending on such
+	// state either (e.g. a record of "what the client already shows" that superseded analyses also write)
+	nPubCond := 0
+	for _, f := range ci.funcs {
+		if !ci.reachG[f] {
+			continue
+		}
+		for _, b := range f.Blocks {
+			for _, ins := range b.Instrs {
+				call, ok := ins.(ssa.CallInstruction)
+				if !ok || !isPublishCall(call) {
+					continue
+				}
+				nPubCond++
+				bad := ""
+				for _, cc := range controlDeps(b) {
+					for v := range backSlice(cc.Cond) {
+						switch x := v.(type) {
+						case *ssa.Call:
+							if op, ok := syncMapOp(x); ok {
+								bad = "a sync.Map." + op + " on server state"
+							}
+						case *ssa.Lookup:
+							if mt, ok := x.X.Type().Underlying().(*types.Map); ok && perDocumentCounter(mt) {
+								continue
+							}
+							if ld, ok := x.X.(*ssa.UnOp); ok {
+								if field, _, ok := rootSharedField(ld.X); ok {
+									bad = "a lookup in " + field
+								}
+							}
+						}
+					}
+				}
+				c.check(bad == "", "C13-SKIP", funcName(f), "publication behind the version guard is unconditional", ins.Pos(),
+					"once the version guard has passed, the diagnostics are sent",
+					"the publication of the latest version's diagnostics is skipped depending on "+bad+" (state that superseded analyses may have written): the client can be left with an older version's diagnostics")
+			}
+		}
+	}
+	c.census("C13-SKIP", "publication sites on background paths", nPubCond, 1)
 }
 
 // bumpsVersionUnderLock: function increments (or stores into) a map element / field of shared state while holding a lock.
